@@ -20,6 +20,19 @@ interfaces), on the real classes and - through `(15 steps)` - on the model:
   event = [0, tag, [[key, value]...]] | [1, tag]
 
 Objects are identified by creation order (heap index) on both sides.
+
+A second kind of case is a history on ONE mutable interface object (Model/IfaceCache.v; the cached
+self._xml is part of the model there):
+
+  ['history', name, [hop...]]      obj = DBusInterface(name, noRegister=True), then
+  hop = [0, decl]                  obj.addMethod/addSignal/addProperty(<new Method/Signal/Property>)
+      | [1, kind, member name]     obj.delMethod (0) / delSignal (1) / delProperty (2)
+      | [2]                        obj._getXml()
+      | [3, path]                  generateIntrospectionXML(path, {path: exporter of obj}) and
+                                   getInterfacesFromXML(document, replaceKnownInterfaces=True)
+      | [4, target, lit]           obj.addMethod/addSignal/addProperty (target 0/1/2) of a given object:
+                                   lit = [0, name, nargs, nret, sigIn, sigOut] | [1, name, nargs, sig] | property decl
+                                   (argument counts already set, objects of another class: duck typing)
 """
 import xml.etree.ElementTree as ET
 from xml.sax.saxutils import quoteattr
@@ -40,6 +53,10 @@ ASSUMPTIONS = [
     'lists type and access only, so the bool-vs-string representation the parser stores is an observation, not compared',
     'exceptions are compared as Ok/Err only; after a failing parse the scenario ends (knownInterfaces may hold '
     'half-built objects, which is not observed)',
+    'histories on one interface object: every member object handed to addMethod/addSignal/addProperty is a new '
+    'object that the caller does not touch afterwards (attribute assignment to a stored Method/Signal/Property '
+    'behind the interface\'s back is not modelled); whether self._xml is filled is not observed, only what '
+    '_getXml / generateIntrospectionXML return',
 ]
 
 BASIC = 'ybnqiuxtdsogh'
@@ -380,6 +397,11 @@ def gen_cases(ctx):
                for j in rng.sample(range(40), 8)]
         rng.shuffle(ds)
         yield ([[0, 'big.iface', ds, 1], [2, '/', [['/', [0]]], 0], [3, False], [3, True]], 'large')
+    # histories on one mutable interface object
+    for c in exhaustive_histories(ctx):
+        yield c
+    for _ in range(ctx.n(2500, 40000)):
+        yield (gen_history(rng), 'history-random')
 
 
 # --------------------------------------------------------------------------
@@ -642,9 +664,329 @@ def norm_model(o, steps):
     return a2, hv, sorted(known), specs
 
 
+
+# --------------------------------------------------------------------------
+# histories on one mutable interface object (Model/IfaceCache.v)
+H_NAMES = ['A', 'B', 'b']
+S, I, U, V, Y = ord('s'), ord('i'), ord('u'), ord('v'), ord('y')
+H_METHOD_DEFS = [([1, S], [1, I]), ([1, I, I], [1]), ([1], [1, S]), ([1, S, [0, [2, S, V]]], [1, [1, I, I]]),
+                 ([1, [0, Y]], [1, S, U]), ([1, S], [1, S])]
+H_SIGNAL_DEFS = [[1, S], [1, S, V], [1], [1, [0, [1, I, S]]], [1, I]]
+H_PROP_DEFS = [([1, I], True, False, 1), ([1, U], True, True, 0), ([1, S], False, True, 2), ([1, [0, S]], True, False, 1),
+               ([1, I], True, True, 1)]
+
+
+def h_decl(rng, kind, name, wide):
+    if wide and rng.random() < 0.35:
+        return gen_decl(rng, kind, name, True, bad=(kind != 2 and rng.random() < 0.25))
+    if kind == 0:
+        a, r = rng.choice(H_METHOD_DEFS)
+        return [0, name, a, r]
+    if kind == 1:
+        return [1, name, rng.choice(H_SIGNAL_DEFS)]
+    t, rd, wr, em = rng.choice(H_PROP_DEFS)
+    return [2, name, t, rd, wr, em]
+
+
+def h_lit(rng, name):
+    r = rng.random()
+    if r < 0.4:
+        a, b = rng.choice(H_METHOD_DEFS)
+        ok = rng.random() < 0.6
+        return [0, name, len(a) - 1 if ok else rng.choice([0, 1, 3, -1]), len(b) - 1 if ok else rng.choice([0, 2]),
+                sig_text(a) if rng.random() < 0.85 else rng.choice(BAD_SIGS), sig_text(b)]
+    if r < 0.8:
+        a = rng.choice(H_SIGNAL_DEFS)
+        return [1, name, rng.choice([len(a) - 1, len(a) - 1, 0, 2, -1]),
+                sig_text(a) if rng.random() < 0.85 else rng.choice(BAD_SIGS)]
+    t, rd, wr, em = rng.choice(H_PROP_DEFS)
+    return [2, name, t, rd, wr, em]
+
+
+def gen_history(rng):
+    wide = rng.random() < 0.3            # random signatures / invalid texts / given objects too
+    names = rng.sample(H_NAMES, rng.choice([2, 2, 3]))
+    kinds = rng.choice([[0], [0], [1], [2], [0, 1], [0, 1, 2], [0, 1, 2]])
+    n = rng.choice([2, 3, 4, 5, 6, 6])
+    hops = []
+    added = []                           # (kind, name) of earlier additions: deletions mostly hit one of them
+    for _ in range(n):
+        r = rng.random()
+        if r < 0.45:
+            k, nm = rng.choice(kinds), rng.choice(names)
+            if added and rng.random() < 0.3:
+                k, nm = rng.choice(added)            # re-declaration (or re-addition after a delete)
+            hops.append([0, h_decl(rng, k, nm, wide)])
+            added.append((k, nm))
+        elif r < 0.6:
+            k, nm = rng.choice(added) if added and rng.random() < 0.75 else (rng.choice(kinds), rng.choice(names))
+            hops.append([1, k, nm])
+        elif r < 0.8:
+            hops.append([2])
+        elif r < 0.95 or not wide:
+            hops.append([3, rng.choice(['/', '/a', '/a/b'])])
+        else:
+            lit = h_lit(rng, rng.choice(names))
+            hops.append([4, lit[0] if rng.random() < 0.7 else rng.choice([0, 1, 2]), lit])
+    if hops[-1][0] not in (2, 3):
+        hops[-1] = [3, '/obj'] if rng.random() < 0.7 else [2]
+    return ['history', rng.choice(['a.b', 'org.example.Iface', STD[1]]), hops]
+
+
+def history_alphabets():
+    m = H_METHOD_DEFS
+    small = [[0, [0, 'A', m[0][0], m[0][1]]], [0, [0, 'A', m[1][0], m[1][1]]], [0, [0, 'B', m[2][0], m[2][1]]],
+             [1, 0, 'A'], [2], [3, '/']]
+    full = small + [[0, [1, 'A', H_SIGNAL_DEFS[0]]], [0, [1, 'A', H_SIGNAL_DEFS[1]]], [1, 1, 'A'],
+                    [0, [2, 'A'] + list(H_PROP_DEFS[0])], [0, [2, 'A'] + list(H_PROP_DEFS[1])], [1, 2, 'A']]
+    return small, full
+
+
+def exhaustive_histories(ctx):
+    """every history over the alphabets up to the stated lengths, each followed by an export"""
+    import itertools
+    small, full = history_alphabets()
+    for alpha, lens in ((full, ctx.n([1, 2, 3], [1, 2, 3, 4])), (small, ctx.n([4], [5, 6]))):
+        for k in lens:
+            for combo in itertools.product(alpha, repeat=k):
+                yield (['history', 'a.b', [list(h) for h in combo] + [[3, '/']]], 'history-exhaustive')
+
+
+def make_member(interface, d):
+    if d[0] == 0:
+        return interface.Method(d[1], sig_text(d[2]), sig_text(d[3]))
+    if d[0] == 1:
+        return interface.Signal(d[1], sig_text(d[2]))
+    return interface.Property(d[1], sig_text(d[2]), bool(d[3]), bool(d[4]), {0: False, 1: True, 2: 'invalidates'}[d[5]])
+
+
+def spec_view(v):
+    """of an iface_view, what the property statement lists, in the shape of the model's spec answer"""
+    return [sorted([m[1], m[4], m[5], m[2], m[3]] for _, m in v[1] if m[0] == 0),
+            sorted([m[1], m[3], m[2]] for _, m in v[2] if m[0] == 1),
+            sorted([m[1], m[2], m[3]] for _, m in v[3] if m[0] == 2)]
+
+
+def run_history_impl(name, hops):
+    """-> (answers, final view, reads, info); reads = per read hop (index, live view, parsed view or None, api_only)"""
+    from txdbus import interface, introspection
+    K = interface.DBusInterface.knownInterfaces
+    saved = dict(K)
+    K.clear()
+    info = {'reads': 0, 'reads_after_change_after_read': 0, 'redeclared_after_read': 0, 'readded_after_delete': 0,
+            'failed_deletes': 0, 'failed_adds': 0, 'given_objects': 0, 'xml_raises': 0}
+    try:
+        obj = interface.DBusInterface(name, noRegister=True)
+        answers = []
+        reads = []
+        api_only = True            # every member stored so far came from Method()/Signal()/Property() + its own addX
+        read_before = False        # the XML has been asked for
+        dirty_after_read = False   # ... and the object was changed since
+        deleted = set()
+        for idx, h in enumerate(hops):
+            if h[0] in (0, 4):
+                if h[0] == 0:
+                    d, target = h[1], h[1][0]
+                    m = make_member(interface, d)
+                else:
+                    target, lit = h[1], h[2]
+                    if lit[0] == 0:
+                        m = interface.Method(lit[1], lit[4], lit[5])
+                        m.nargs, m.nret = lit[2], lit[3]
+                    elif lit[0] == 1:
+                        m = interface.Signal(lit[1], lit[3])
+                        m.nargs = lit[2]
+                    else:
+                        m = make_member(interface, lit)
+                    info['given_objects'] += 1
+                dct = (obj.methods, obj.signals, obj.properties)[target]
+                existed = m.name in dct
+                try:
+                    (obj.addMethod, obj.addSignal, obj.addProperty)[target](m)
+                except Exception:
+                    answers.append([0])
+                    info['failed_adds'] += 1
+                    continue
+                answers.append([])
+                if h[0] == 4:
+                    api_only = False
+                if read_before:
+                    dirty_after_read = True
+                    if existed:
+                        info['redeclared_after_read'] += 1
+                if (target, m.name) in deleted:
+                    info['readded_after_delete'] += 1
+                    deleted.discard((target, m.name))
+            elif h[0] == 1:
+                try:
+                    (obj.delMethod, obj.delSignal, obj.delProperty)[h[1]](h[2])
+                except Exception:
+                    answers.append([0])
+                    info['failed_deletes'] += 1
+                    continue
+                answers.append([])
+                deleted.add((h[1], h[2]))
+                if read_before:
+                    dirty_after_read = True
+            else:
+                info['reads'] += 1
+                if dirty_after_read:
+                    info['reads_after_change_after_read'] += 1
+                live = iface_view(obj)
+                parsed = None
+                if h[0] == 2:
+                    try:
+                        xml = obj._getXml()
+                    except Exception:
+                        answers.append([0])
+                        info['xml_raises'] += 1
+                        reads.append((idx, live, None, api_only, 'raised'))
+                        continue
+                    answers.append([1, xml_events(xml)])
+                    read_before = True
+                    if api_only:
+                        # oracle only (not compared with the model): the interface element alone, parsed back
+                        try:
+                            out = introspection.getInterfacesFromXML('<node>\n%s\n</node>' % xml, True)
+                            parsed = iface_view(out[0])
+                        except Exception:
+                            parsed = 'parse raised'
+                        K.clear()
+                    reads.append((idx, live, parsed, api_only, 'ok'))
+                else:
+                    try:
+                        xml = introspection.generateIntrospectionXML(h[1], {h[1]: Exporter([obj])})
+                    except Exception:
+                        answers.append([0])
+                        info['xml_raises'] += 1
+                        reads.append((idx, live, None, api_only, 'raised'))
+                        continue
+                    read_before = True
+                    evs = xml_events(xml)
+                    try:
+                        out = introspection.getInterfacesFromXML(xml, replaceKnownInterfaces=True)
+                        parsed = iface_view(out[0])
+                        answers.append([1, evs, parsed])
+                    except Exception:
+                        parsed = 'parse raised'
+                        answers.append([2, evs])
+                    K.clear()
+                    reads.append((idx, live, parsed, api_only, 'ok'))
+        return answers, iface_view(obj), reads, info
+    finally:
+        K.clear()
+        K.update(saved)
+
+
+def norm_iface_model(i):
+    return [i[0]] + [sorted(d) for d in i[1:]]
+
+
+def norm_history_model(o, hops):
+    """-> (answers comparable with the implementation's, final object view, spec per read hop, final spec)"""
+    answers, final, spec = to_str(o)
+    a2 = []
+    specs = {}
+    for k, a in enumerate(answers):
+        kind = hops[k][0]
+        if a and a[0] == 0:
+            a2.append([0])
+        elif kind == 2:
+            a2.append([1, sort_attrs(a[1])])
+            specs[k] = a[2][0] if a[2] else None
+        elif kind == 3 and a[0] == 1:
+            a2.append([1, sort_attrs(a[1]), norm_iface_model(a[2])])
+            specs[k] = a[3][0] if a[3] else None
+        elif kind == 3:
+            a2.append([2, sort_attrs(a[1])])
+        else:
+            a2.append(a)
+    return a2, norm_iface_model(final), specs, (spec[0] if spec else None)
+
+
+def canon_spec(spec):
+    return [sorted(map(list, {tuple(x) for x in part})) for part in spec]
+
+
+def evaluate_histories(ctx, cases, res):
+    lines = ['(15 1 %s %s)' % (common.dump(c[1]), common.dump(c[2])) for c, _ in cases]
+    outs = common.run_model(lines)
+    shapes = {}
+    totals = {}
+    spec_reads = 0
+    for (case, shape), o in zip(cases, outs):
+        if o == [-1]:
+            raise RuntimeError('model rejected input %r' % (case,))
+        _, name, hops = case
+        m_answers, m_final, m_specs, m_final_spec = norm_history_model(o, hops)
+        i_answers, i_final, reads, info = run_history_impl(name, hops)
+        shapes[shape] = shapes.get(shape, 0) + 1
+        for k, v in info.items():
+            totals[k] = totals.get(k, 0) + v
+        res.count(case, nontrivial=info['reads_after_change_after_read'] > 0)
+        impl = []
+        for k, a in enumerate(i_answers):
+            if a and a[0] in (1, 2) and hops[k][0] in (2, 3):
+                impl.append([a[0], sort_attrs(a[1])] + a[2:])
+            else:
+                impl.append(a)
+        # ---- correspondence: implementation vs model (Model/IfaceCache.v) ----
+        if impl != m_answers:
+            bad = next((k for k, (x, y) in enumerate(zip(impl, m_answers)) if x != y), min(len(impl), len(m_answers)))
+            res.disagree(case, {'hop': bad, 'answer': impl[bad] if bad < len(impl) else None},
+                         {'hop': bad, 'answer': m_answers[bad] if bad < len(m_answers) else None})
+        elif i_final != m_final:
+            res.disagree(case, {'final object': i_final}, {'final object': m_final})
+        # ---- oracle: at every moment the XML, parsed back, is the interface as currently declared ----
+        for idx, live, parsed, api_only, status in reads:
+            where = 'hop %d of %r' % (idx, hops)
+            if not api_only:
+                continue
+            if status == 'raised':
+                res.violate(case, 'asking for the XML raised although every member was declared through the API (%s)'
+                            % where, 'history:xml-raises')
+                continue
+            if parsed == 'parse raised':
+                res.violate(case, 'the generated XML could not be parsed back (%s)' % where, 'history:parse-raises')
+                continue
+            got, want = [parsed[0]] + spec_view(parsed), [live[0]] + spec_view(live)
+            if got != want:
+                res.violate(case, 'the XML obtained at %s, parsed back, shows %r but the interface is currently '
+                            'declared as %r (stale or wrong XML)' % (where, got, want), 'history:stale-xml')
+            spec = m_specs.get(idx)
+            if spec is not None:
+                spec_reads += 1
+                if spec_view(live) != canon_spec(spec):
+                    res.violate(case, 'at %s the object shows %r, the definition in force is %r'
+                                % (where, spec_view(live), canon_spec(spec)), 'history:declaration-differs')
+        if m_final_spec is not None and spec_view(i_final) != canon_spec(m_final_spec):
+            res.violate(case, 'after %r the object shows %r, the definition in force is %r'
+                        % (hops, spec_view(i_final), canon_spec(m_final_spec)), 'history:declaration-differs')
+        # a typed declaration must be accepted
+        for k, h in enumerate(hops[:len(i_answers)]):
+            if h[0] == 0 and i_answers[k] == [0] and all(sg[0] == 1 for sg in h[1][2:(4 if h[1][0] == 0 else 3)]):
+                res.violate(case, 'a declaration with signatures from the type grammar was rejected: %r' % (h,),
+                            'declare:rejected')
+    totals['reads_checked_against_spec'] = spec_reads
+    res.extra['history_shapes'] = shapes
+    res.extra['history_distribution'] = totals
+    for c in cases[:1] + cases[-2:]:
+        res.sample(c[0])
+
+
+def is_history(c):
+    return isinstance(c, (list, tuple)) and len(c) == 3 and c[0] == 'history'
+
+
 def evaluate(ctx, cases, res):
     cases = [tuple(c) if (isinstance(c, (list, tuple)) and len(c) == 2 and isinstance(c[1], str)) else (c, 'replay')
              for c in cases]
+    hist = [c for c in cases if is_history(c[0])]
+    cases = [c for c in cases if not is_history(c[0])]
+    if hist:
+        evaluate_histories(ctx, hist, res)
+    if not cases:
+        return
     lines = ['(15 %s)' % common.dump(steps) for steps, _ in cases]
     outs = common.run_model(lines)
     shapes = {}
@@ -726,6 +1068,17 @@ def run(ctx, res):
                 'missing attributes, odd access/direction/annotation values) and an exhaustive small block (access x '
                 'notification x known x replace; every type of depth <= 1). Compared per step: Ok/Err, object '
                 'identities (creation index), element events, then every object\'s content and knownInterfaces. '
-                'non-trivial = at least one successful parse and one declared member; distinct by hash')
+                'non-trivial = at least one successful parse and one declared member; distinct by hash. '
+                'Histories on one mutable DBusInterface(noRegister=True): 2-6 calls of addMethod/addSignal/addProperty '
+                '(member names from a pool of 2-3, definitions differing in signatures / argument counts / access, so '
+                're-declaration and delete + re-add of a name are frequent; some random-grammar and invalid signatures, '
+                'some given objects with preset counts or of another class), delMethod/delSignal/delProperty (present or '
+                'not), _getXml(), generateIntrospectionXML for an object exporting it + getInterfacesFromXML(replace); '
+                'exhaustive over a 12-call alphabet to length 3 (thorough 4) and a 6-call alphabet at length 4 '
+                '(thorough 5-6), each followed by an export. Compared per call: Ok/Err, element events, the parsed '
+                'object, the final object; oracle: XML parsed back == interface as currently declared == definition in '
+                'force. non-trivial history = the XML is read after a change made after an earlier read')
     evaluate(ctx, list(gen_cases(ctx)), res)
-    res.extra['exhaustive_scope'] = 'access(4) x notification(3) x noRegister form(3) x replace(2); all types of depth <= 1'
+    res.extra['exhaustive_scope'] = ('access(4) x notification(3) x noRegister form(3) x replace(2); all types of depth <= 1; '
+                                     'histories: 12-call alphabet, every sequence of length <= %d; 6-call alphabet, length %s'
+                                     % (ctx.n(3, 4), ctx.n('4', '5-6')))
